@@ -2,6 +2,8 @@
 package redisx
 
 import (
+	"errors"
+	"sync/atomic"
 	"time"
 
 	redigo "github.com/gomodule/redigo/redis"
@@ -18,6 +20,37 @@ import (
 type Env struct {
 	Srv  *fakeredis.Server
 	Pool *redigo.Pool
+	fail int32 // > 0: the next Flush / Do on a pooled connection fails as on a broken connection
+}
+
+// FailNext makes the next Flush or Do of any connection of this env's pool return an error without sending
+// anything (a connection that broke while it was idle).
+func (e *Env) FailNext() { atomic.StoreInt32(&e.fail, 1) }
+
+// FailPending reports whether an armed failure has not been consumed yet, and disarms it.
+func (e *Env) FailPending() bool { return atomic.SwapInt32(&e.fail, 0) == 1 }
+
+var errInjected = errors.New("verif: injected connection failure")
+
+type faultConn struct {
+	redigo.Conn
+	e *Env
+}
+
+func (c *faultConn) Flush() error {
+	if atomic.CompareAndSwapInt32(&c.e.fail, 1, 0) {
+		_ = c.Conn.Close() // the connection is dead: what was buffered never reaches the server
+		return errInjected
+	}
+	return c.Conn.Flush()
+}
+
+func (c *faultConn) Do(cmd string, args ...interface{}) (interface{}, error) {
+	if cmd != "" && atomic.CompareAndSwapInt32(&c.e.fail, 1, 0) {
+		_ = c.Conn.Close()
+		return nil, errInjected
+	}
+	return c.Conn.Do(cmd, args...)
 }
 
 // NewEnv starts a fresh fake redis.
@@ -26,7 +59,19 @@ func NewEnv() (*Env, error) {
 	if err != nil {
 		return nil, err
 	}
-	return &Env{Srv: s, Pool: NewPool(s.Addr())}, nil
+	e := &Env{Srv: s}
+	addr := s.Addr()
+	e.Pool = &redigo.Pool{
+		MaxIdle: 16, IdleTimeout: 240 * time.Second,
+		Dial: func() (redigo.Conn, error) {
+			c, err := redigo.Dial("tcp", addr)
+			if err != nil {
+				return nil, err
+			}
+			return &faultConn{Conn: c, e: e}, nil
+		},
+	}
+	return e, nil
 }
 
 // NewPool builds a pool the way persistence.NewRedis does.
